@@ -10,6 +10,9 @@ goroutine (instance goroutines, main loop, drain goroutine; default and zone-awa
   3. code -> spec: harness/c11 TestRecord enumerates environment schedules depth-first on the real code (all
      configurations, including request minimisation whose held-back set is rand.Perm) and QuorumReadTrace.tla lets
      TLC decide for every recorded trace whether it is a behaviour of the specification.
+The configuration space includes the shape of the terminal-error predicate (nil, never, terminal class, everything incl. nil,
+not-transient incl. nil) and the bubble clock runs in half hedging delays (results are delivered between two ticks as well as
+right after one), so the time at which the hedging ticker releases a held-back request is observable.
 Additional modules, bound code -> spec the same way: QuorumDo.tla (legacy ReplicationSet.Do with delayed extra requests)
 and QuorumMulti.tla (DoMultiUntilQuorumWithoutSuccessfulContextCancellation, 2..3 sets).
 
@@ -19,14 +22,16 @@ expected observation / one logged field: the run must end with a VIOLATION).
 """
 import json
 import os
+import threading
+from concurrent.futures import ThreadPoolExecutor
 
 import verif
 
 PROPERTY = "C11"
 META = {
     "level_text": "TLC checks the goroutine-level specification of DoUntilQuorum(WithoutSuccessfulContextCancellation) exhaustively for 1..3 "
-                  "(thorough: 4) instances in 1..3 zones, every tolerance, minimisation/hedging/terminal predicate/both variants, every "
-                  "interleaving of calls, main loop, drain goroutine, hedging ticks and caller cancellation; the real code is bound both ways: "
+                  "(thorough: 4) instances in 1..3 zones, every tolerance, minimisation/hedging, five terminal-predicate shapes, both variants, every "
+                  "interleaving of calls, main loop, drain goroutine, clock advances in half hedging delays and caller cancellation; the real code is bound both ways: "
                   "TLC-generated schedules with demanded observations are replayed under synctest, and depth-first enumerated schedules of "
                   "the real code (incl. rand.Perm minimisation) are validated as behaviours of the specification by TLC.",
     "level_note": "Trusted: TLC, testing/synctest quiescence, the projection (calls per instance, return value, cleanup counts, context cause "
@@ -38,7 +43,8 @@ META = {
     "design_ref": "DESIGN.md 2 C11",
 }
 
-WORKERS = int(os.environ.get("VERIF_TLC_WORKERS", "8"))
+WORKERS = int(os.environ.get("VERIF_TLC_WORKERS", "4"))      # per TLC run; up to PARALLEL runs at a time
+PARALLEL = int(os.environ.get("C11_PARALLEL", "0"))          # 0: 7 chains (quick) / 4 (thorough)
 CHUNK = 16000   # traces per TLC validation run
 
 
@@ -46,14 +52,53 @@ def incon(why):
     raise verif.Inconclusive(why)
 
 
-def model_check(ctx):
-    cfgs = ["MC_quick.cfg", "MC_live.cfg"] if ctx.tier == "quick" else ["MC_quick.cfg", "MC_thorough.cfg", "MC_live3.cfg"]
-    cfgs += ["MC_do3.cfg", "MC_multi_quick.cfg"] if ctx.tier == "quick" else \
-            ["MC_do.cfg", "MC_do_live.cfg", "MC_multi_thorough.cfg", "MC_multi_live.cfg"]
+# The stages are independent (different TLA+ modules, different harness entry points) and run as parallel chains.
+# Shared bookkeeping of ctx is touched under LOCK; `go test` invocations are serialised (lib/verif.py rewrites go.sum /
+# the alternative go.mod before each of them); TLC runs of one module never overlap (their scratch directory is named
+# after the module).
+LOCK = threading.RLock()
+GOLOCK = threading.Lock()
+LAUNCH = threading.Lock()
+
+
+def tlc(ctx, module, **kw):
+    count = kw.pop("count", True)
+    # ctx.tlc numbers its scratch directory in its first instructions: launches are staggered so that the
+    # numbers are distinct even for parallel runs of the same module
+    LAUNCH.acquire()
+    threading.Timer(0.4, LAUNCH.release).start()
+    r = ctx.tlc("quorumread", module, count=False, **kw)
+    if count:
+        with LOCK:
+            ctx.states += r.distinct
+            ctx.transitions += r.generated
+    return r
+
+
+def harness(ctx, test, env, timeout=3000):
+    with GOLOCK:
+        return ctx.run_harness("c11", "^%s$" % test, env=env, timeout=timeout)
+
+
+def absorb(ctx, res, label):
+    with LOCK:
+        ctx.absorb(res, label)
+
+
+def add_extra(ctx, key, n):
+    with LOCK:
+        ctx.extra[key] = ctx.extra.get(key, 0) + n
+
+
+def model_check(ctx, module):
+    """Exhaustive model checking of one module's configurations (the property is decided here)."""
+    quick = ctx.tier == "quick"
+    cfgs = {"QuorumRead": ["MC_quick.cfg", "MC_live.cfg"] if quick else ["MC_quick.cfg", "MC_thorough.cfg", "MC_live3.cfg"],
+            "QuorumDo": ["MC_do3.cfg"] if quick else ["MC_do.cfg", "MC_do_live.cfg"],
+            "MCQuorumMulti": ["MC_multi_quick.cfg"] if quick else ["MC_multi_thorough.cfg", "MC_multi_live.cfg"]}[module]
     for cfg in cfgs:
-        module = "QuorumDo" if cfg.startswith("MC_do") else "MCQuorumMulti" if cfg.startswith("MC_multi") else "QuorumRead"
-        r = ctx.tlc("quorumread", module, cfg=cfg, timeout=3000, workers=WORKERS,
-                    coverage=(ctx.tier == "thorough" and cfg in ("MC_quick.cfg", "MC_do.cfg", "MC_multi_thorough.cfg")))
+        r = tlc(ctx, module, cfg=cfg, timeout=3000, workers=WORKERS,
+                coverage=(not quick and cfg in ("MC_quick.cfg", "MC_do.cfg", "MC_multi_live.cfg")))
         ctx.require_tlc_ok(r, cfg)
         if r.distinct < 1000:
             incon("%s explored only %d states" % (cfg, r.distinct))
@@ -79,8 +124,8 @@ def gen_replay(ctx):
         runs.append(dict(cfg="Gen_sim6q.cfg", simulate="num=2000", depth=80))
     for kw in runs:
         cfg = kw.pop("cfg")
-        r = ctx.tlc("quorumread", "QuorumReadGen", cfg=cfg, timeout=3000, deadlock=False,
-                    workers=(1 if "simulate" in kw else WORKERS), **kw)   # one worker: -simulate is reproducible for a seed
+        r = tlc(ctx, "QuorumReadGen", cfg=cfg, timeout=3000, deadlock=False,
+                workers=(1 if "simulate" in kw else WORKERS), **kw)   # one worker: -simulate is reproducible for a seed
         ctx.require_tlc_ok(r, cfg)
         if r.emitted == 0:
             incon("%s emitted no behaviours" % cfg)
@@ -102,30 +147,31 @@ def gen_replay(ctx):
         env = {"VERIF_IN": uniq}
         if os.environ.get("C11_SELFTEST") == "corrupt_expected":
             env["VERIF_CORRUPT"] = "7"
-        res = ctx.run_harness("c11", "^TestReplay$", env=env, timeout=3000)
+        res = harness(ctx, "TestReplay", env)
         if res.get("cases") != n:
             incon("%s: harness replayed %s of %d behaviours" % (cfg, res.get("cases"), n))
-        ctx.absorb(res, "replay " + cfg)
-        ctx.extra["behaviours_replayed"] = ctx.extra.get("behaviours_replayed", 0) + n
+        absorb(ctx, res, "replay " + cfg)
+        add_extra(ctx, "behaviours_replayed", n)
 
 
-def validate(ctx, trace_path, label, module="QuorumReadTrace"):
-    """Run the trace specification on a trace file; returns the list of rejected traces."""
+def validate(ctx, trace_path, label, module="QuorumReadTrace", parts=1):
+    """Run the trace specification on a trace file (in `parts` parallel TLC runs, at most CHUNK traces each);
+    returns the list of rejected traces."""
     lines = open(trace_path).read().splitlines()
-    rejected = []
-    for k in range(0, len(lines), CHUNK):
-        chunk = lines[k:k + CHUNK]
-        p = ctx.path("%s_chunk%d.ndjson" % (label, k // CHUNK))
-        open(p, "w").write("\n".join(chunk) + "\n")
-        r = ctx.tlc("quorumread", module, cfg=module + ".cfg", extra_files={p: "trace.ndjson"},
-                    workers=WORKERS, deadlock=False, timeout=3000)
+    nchunks = max(parts, -(-len(lines) // CHUNK))
+    chunks = [c for c in (lines[k::nchunks] for k in range(nchunks)) if c]    # round robin: balanced sizes
+
+    def one(k):
+        p = ctx.path("%s_chunk%d.ndjson" % (label, k))
+        open(p, "w").write("\n".join(chunks[k]) + "\n")
+        r = tlc(ctx, module, cfg=module + ".cfg", extra_files={p: "trace.ndjson"},
+                workers=WORKERS, deadlock=False, timeout=3000)
         ctx.require_tlc_ok(r, "trace validation " + label)
         acc = set(json.loads(x)["acc"] for x in open(r.out_path))
-        for line in chunk:
-            t = json.loads(line)
-            if t["id"] not in acc:
-                rejected.append(t)
-    return rejected
+        return [t for t in map(json.loads, chunks[k]) if t["id"] not in acc]
+
+    with ThreadPoolExecutor(max_workers=3) as ex:
+        return [t for part in ex.map(one, range(len(chunks))) for t in part]
 
 
 def diagnose(ctx, traces, module="QuorumReadTrace"):
@@ -133,8 +179,8 @@ def diagnose(ctx, traces, module="QuorumReadTrace"):
     observations does it demand at the line where it gets stuck.  Returns {id: (line, [demanded observations])}."""
     p = ctx.path("diag_%s.ndjson" % module)
     open(p, "w").write("".join(json.dumps(t) + "\n" for t in traces))
-    r = ctx.tlc("quorumread", module, cfg=module + "Diag.cfg", extra_files={p: "trace.ndjson"},
-                workers=1, deadlock=False, timeout=1500, count=False)
+    r = tlc(ctx, module, cfg=module + "Diag.cfg", extra_files={p: "trace.ndjson"},
+            workers=1, deadlock=False, timeout=1500, count=False)
     out = {}
     if r.out_path and os.path.exists(r.out_path):
         for x in open(r.out_path):
@@ -173,20 +219,20 @@ def record_validate(ctx):
         env = {"VERIF_NS": "[1,2,3]", "VERIF_FLAGS": "core", "VERIF_ROUNDS": 1, "VERIF_MAXZ": 3, "VERIF_N3_ONE_VARIANT": 1,
                "VERIF_SAMPLE_NS": "[4]", "VERIF_SAMPLES": 400, "VERIF_SAMPLE_MAXZ": 3}
     else:
-        env = {"VERIF_NS": "[1,2,3]", "VERIF_FLAGS": "all", "VERIF_ROUNDS": 3, "VERIF_MAXZ": 3,
+        env = {"VERIF_NS": "[1,2,3]", "VERIF_FLAGS": "all", "VERIF_ROUNDS": 2, "VERIF_MAXZ": 3,
                "VERIF_DFS4": 1, "VERIF_SAMPLE_NS": "[4,5,6]", "VERIF_SAMPLES": 6000, "VERIF_SAMPLE_MAXZ": 4}
     tp = ctx.path("traces.ndjson")
     env["VERIF_TRACE_OUT"] = tp
     if os.environ.get("C11_SELFTEST") == "corrupt_trace":
         env["VERIF_CORRUPT_TRACE"] = "11"
-    res = ctx.run_harness("c11", "^TestRecord$", env=env, timeout=3000)
+    res = harness(ctx, "TestRecord", env)
     nrec = res.get("cases", 0)
     if nrec == 0:
         incon("no traces recorded")
-    rejected = validate(ctx, tp, "rec")
+    rejected = validate(ctx, tp, "rec", parts=3)
     res["cases"] = nrec - len(rejected)
-    ctx.absorb(res, "record")
-    ctx.extra["traces_recorded"] = nrec
+    absorb(ctx, res, "record")
+    add_extra(ctx, "traces_recorded", nrec)
     if not rejected:
         return
     # triage: re-record the rejected schedules once; only a rejection that repeats is a verdict
@@ -196,7 +242,7 @@ def record_validate(ctx):
     env2 = {"VERIF_IN": rp, "VERIF_TRACE_OUT": rp2}
     if "VERIF_CORRUPT_TRACE" in env:
         env2["VERIF_CORRUPT_TRACE"] = "1"
-    res2 = ctx.run_harness("c11", "^TestRerun$", env=env2, timeout=1500)
+    res2 = harness(ctx, "TestRerun", env2, timeout=1500)
     if res2.get("fatal"):
         incon("re-recording failed: %s" % res2["fatal"])
     again = {t["id"]: t for t in validate(ctx, rp2, "rerec")}
@@ -216,9 +262,11 @@ def report(ctx, confirmed, nrej, module, label):
         by_sig[sig] = by_sig.get(sig, 0) + 1
         if by_sig[sig] > 2:
             continue
-        ctx.disagreement({"sig": sig, "case": t, "got": got,
-                          "want": want[:4] or "a quiescent state of the specification reachable by internal steps that agrees with the observation",
-                          "note": "rejected at line %d of %d; %d traces rejected in this run" % (line, len(t["steps"]), nrej)}, label)
+        m = {"sig": sig, "case": t, "got": got,
+             "want": want[:4] or "a quiescent state of the specification reachable by internal steps that agrees with the observation",
+             "note": "rejected at line %d of %d; %d traces rejected in this run" % (line, len(t["steps"]), nrej)}
+        with LOCK:
+            ctx.disagreement(m, label)
 
 
 def sched_key(t):
@@ -232,14 +280,14 @@ def record_validate_simple(ctx, test, module, label, env):
     for attempt in (1, 2):
         tp = ctx.path("%s_traces%d.ndjson" % (label, attempt))
         env["VERIF_TRACE_OUT"] = tp
-        res = ctx.run_harness("c11", "^%s$" % test, env=env, timeout=3000)
+        res = harness(ctx, test, dict(env))
         nrec = res.get("cases", 0)
         if nrec == 0:
             incon("no %s traces recorded" % label)
         rej = validate(ctx, tp, "%s%d" % (label, attempt), module=module)
         if attempt == 1:
             res["cases"] = nrec - len(rej)
-            ctx.absorb(res, "record " + label)
+            absorb(ctx, res, "record " + label)
             if not rej:
                 return
             rejected = {sched_key(t) for t in rej}
@@ -266,19 +314,28 @@ def record_validate_multi(ctx):
 
 def run(ctx):
     ctx.rule = ("a case = one complete execution of the real call: configuration (instances, zones, mode, tolerance, flags) + environment "
-                "schedule (which call returns when with ok/err/terminal, hedging ticks, cancellation) run to termination; replayed cases are "
+                "schedule (which call returns when with ok/err/terminal-class error, clock advances by half a hedging delay, cancellation) run to termination; replayed cases are "
                 "distinct schedules emitted by TLC, recorded cases are distinct paths of the depth-first enumeration; non-trivial = a call "
-                "fails, a tick or cancellation occurs, or a call finishes after the quorum read has returned")
+                "fails, the clock advances or cancellation occurs, or a call finishes after the quorum read has returned")
     ctx.assumptions = ["testing/synctest: synctest.Wait() returns only when every goroutine of the call is blocked",
                        "callbacks ignore context cancellation until the driver lets them return (cancellation is observed, not acted on)",
                        "environment steps happen at quiescent points; select races are decided on the specification only"]
     ctx.exhaustive = True
+    # the longest chain first (it gets the `go test` lock first)
+    chains = [("record/validate", lambda: record_validate(ctx)), ("record/validate multi", lambda: record_validate_multi(ctx)),
+              ("record/validate Do", lambda: record_validate_do(ctx)), ("gen/replay", lambda: gen_replay(ctx))]
     if os.environ.get("C11_SKIP_MC"):      # development aid for mutation runs: the model-checking step does not touch the code
         ctx.log("C11_SKIP_MC set: skipping the exhaustive model-checking step")
     else:
-        model_check(ctx)
-    gen_replay(ctx)
-    record_validate(ctx)
-    record_validate_do(ctx)
-    record_validate_multi(ctx)
+        chains = chains + [("model checking " + m, (lambda m=m: model_check(ctx, m))) for m in ("QuorumRead", "MCQuorumMulti", "QuorumDo")]
+    errors = []
+    with ThreadPoolExecutor(max_workers=PARALLEL or (7 if ctx.tier == "quick" else 4)) as ex:
+        futs = [(name, ex.submit(fn)) for name, fn in chains]
+        for name, f in futs:
+            try:
+                f.result()
+            except verif.Inconclusive as e:
+                errors.append("%s: %s" % (name, e))
+    if errors:
+        incon("; ".join(errors))
     return "model_checking"
